@@ -29,7 +29,7 @@ def correspond(ctx):
     ctx.cov.update({'evaluations': ev, 'distinct_nontrivial': judged,
                     'rule': 'planted cone LPs: 40% strict Farkas certificates (dual feasible), 40% strictly improving rays (primal feasible), 20% '
                             'solvable; presentations as in C01; every infeasibility status judged by pinfOk/dinfOk of the Lean checker; '
-                            'op.solve status propagation on infeasible/unbounded LPs', 'statuses': stats, 'presentations': tags})
+                            'op.solve status propagation on infeasible/unbounded LPs, fresh and as histories of solves on the same variable and constraint objects', 'statuses': stats, 'presentations': tags})
     ctx.samples += lines[:2]
 
 def start_outside_cone_runs(ctx, cvxopt):
@@ -140,6 +140,32 @@ def opsolve_runs(ctx, cvxopt):
             ctx.violation('c02:op.solve-values:' + kind, 'op.solve on an infeasible LP: variable values must be None and multipliers a certificate', {'kind': kind})
         if kind == 'unbounded' and (x.value is None or any(c.multiplier.value is not None for c in cs)):
             ctx.violation('c02:op.solve-values:' + kind, 'op.solve on an unbounded LP: multipliers must be None and variable values a certificate', {'kind': kind})
+    # histories on the SAME variable and constraint objects: what an earlier solve left in .value must not survive a later infeasible / unbounded solve
+    rng = random.Random(ctx.seed * 389 + 2)
+    x = M.variable(2, 'x')
+    c_pos, c_up, c_bad, c_ray = (x >= 0), (x[0] + x[1] <= 1), (x[0] + x[1] <= -1), (x[0] - x[1] <= 1)
+    probs = {'optimal': (lambda: M.op(-x[0] - x[1], [c_up, c_pos]), [c_up, c_pos]),
+             'primal infeasible': (lambda: M.op(x[0], [c_bad, c_pos]), [c_bad, c_pos]),
+             'dual infeasible': (lambda: M.op(x[0] - 2 * x[1], [c_ray, c_pos]), [c_ray, c_pos])}
+    hist = []
+    for step in range(6 if ctx.quick() else 40):
+        want = rng.choice(sorted(probs)) if step >= 3 else ['optimal', 'primal infeasible', 'dual infeasible'][step]
+        mk, cs = probs[want]
+        p = mk()
+        with contextlib.redirect_stdout(io.StringIO()):
+            p.solve()
+        n += 1; hist.append(want)
+        case = {'history': list(hist)}
+        if p.status != want:
+            ctx.violation('c02:op.solve-status:history', 'op.solve gives status %r for the %s problem after the history %r' % (p.status, want, hist[:-1]), case); continue
+        has_x = x.value is not None; has_m = [c.multiplier.value is not None for c in cs]
+        if want == 'optimal' and not (has_x and all(has_m)):
+            ctx.violation('c02:op.solve-values:history:optimal', 'optimal solve after %r: values / multipliers missing' % hist[:-1], case)
+        if want == 'primal infeasible' and (has_x or not all(has_m)):
+            ctx.violation('c02:op.solve-values:history:infeasible', "status 'primal infeasible' after the history %r, but the variable still has a value (%s) / a multiplier is missing"
+                          % (hist[:-1], None if x.value is None else list(x.value)), case)
+        if want == 'dual infeasible' and (not has_x or any(has_m)):
+            ctx.violation('c02:op.solve-values:history:unbounded', "status 'dual infeasible' after the history %r, but a constraint still has a multiplier / the ray is missing" % hist[:-1], case)
     return n
 
 def search(ctx, why):
